@@ -21,7 +21,7 @@ RULE = (
     "Non-trivial = distinct (operation, arguments) whose result differs from the receiver."
 )
 ASSUMPTIONS = ["is_simple for n <= 2 follows the definition 'no proper interval of length 2..n-1'"]
-REQUIRED = ["calls.Perm.direct_sum", "calls.Perm.skew_sum", "calls.Perm.compose", "calls.Perm.insert", "calls.Perm.remove",
+REQUIRED = ["laws.huge_shift_amounts", "laws.many_factors", "calls.Perm.direct_sum", "calls.Perm.skew_sum", "calls.Perm.compose", "calls.Perm.insert", "calls.Perm.remove",
             "calls.Perm.remove_element", "calls.Perm.inflate", "calls.Perm.shift_right", "calls.Perm.shift_up",
             "calls.Perm.sum_decomposition", "calls.Perm.skew_decomposition", "calls.Perm.block_decomposition",
             "calls.Perm.is_simple", "calls.Perm.children", "calls.Perm.coveredby", "calls.Perm.contract_bonds",
@@ -305,6 +305,15 @@ def chk_unary(ctx, p):
             report("unary", [p], f"shift laws fail for amount {k}")
     P.shift_right()
     P.shift_up()
+    # shift amounts of any size act cyclically (amounts around the machine-word boundaries and far beyond)
+    for big in (2 ** 31, -2 ** 31 - 1, 2 ** 63 - 1, 2 ** 63, -2 ** 63, -2 ** 63 - 1, 2 ** 64 + 1, 10 ** 30 + 7, -(10 ** 30) - 7):
+        a, c = P.shift_right(big), P.shift_up(big)
+        b, d = P.shift_left(big), P.shift_down(big)
+        ctx.ev()
+        ctx.count("laws.huge_shift_amounts")
+        if n and not (a == P.shift_right(big % n) and c == P.shift_up(big % n) and b == P.shift_right(-big % n) and d == P.shift_up(-big % n)
+                      and P.shift_right(big - 1).shift_right(1) == a):
+            report("unary", [p], f"shift laws fail for amount {big}")
     sd, kd = P.sum_decomposition(), P.skew_decomposition()
     ctx.ev()
     ctx.count("laws.checked")
@@ -367,6 +376,34 @@ def chk_unary(ctx, p):
         E.block_decomposition(), E.is_sum_decomposable(), E.contract_bonds()
 
 
+def chk_many_factors(ctx, p, count, depth):
+    """composition / sums with very many arguments, asked for from deep inside a call stack as well: the result must be
+    the left-to-right product whatever the number of factors (judged by the compose monitor and by the power law)"""
+    P = Perm(p)
+    n = len(P)
+
+    def at_depth(d, fn):
+        return fn() if d == 0 else at_depth(d - 1, fn)
+
+    got = at_depth(depth, lambda: P.compose(*([P] * (count - 1))))
+    ctx.ev()
+    ctx.count("laws.many_factors")
+    want = tuple(range(n))
+    base, e = tuple(P), count
+    while e:  # square-and-multiply on plain tuples
+        if e & 1:
+            want = tuple(want[base[i]] for i in range(n))
+        base = tuple(base[base[i]] for i in range(n))
+        e >>= 1
+    if tuple(got) != want:
+        report("many", [p, count, depth], f"compose of {count} equal factors at stack depth {depth} is {tuple(got)}, the power is {want}")
+    parts = [Perm((0,))] * count
+    ds = at_depth(depth, lambda: Perm().direct_sum(*parts))
+    ks = at_depth(depth, lambda: Perm().skew_sum(*parts))
+    if tuple(ds) != tuple(range(count)) or tuple(ks) != tuple(range(count - 1, -1, -1)):
+        report("many", [p, count, depth], f"direct/skew sum of {count} points is not the identity / the reverse identity")
+
+
 def chk_binary(ctx, p, q, r):
     P, Q, R = Perm(p), Perm(q), Perm(r)
     ctx.ev()
@@ -405,7 +442,7 @@ def chk_inflate(ctx, p, comps):
             report("inflate", [p, comps], "inflating 01 / 10 is not the direct / skew sum")
 
 
-CHECKS = {"op": chk_op, "unary": chk_unary, "binary": chk_binary, "inflate": chk_inflate}
+CHECKS = {"many": chk_many_factors, "op": chk_op, "unary": chk_unary, "binary": chk_binary, "inflate": chk_inflate}
 
 
 def plan(tier, seed):
@@ -456,4 +493,7 @@ def run(ctx, spec):
             if rng.random() < 0.3:
                 n = rng.randint(6, 12)
                 chk_unary(ctx, rng.sample(range(n), n))
+        for count, depth in ((300, 0), (1000, 0), (1500, 0), (400, 600), (2500, 100)):
+            n = rng.randint(2, 6)
+            chk_many_factors(ctx, rng.sample(range(n), n), count, depth)
         ctx.sample({"inflate": {"perm": p, "components": comps}})
